@@ -79,7 +79,7 @@ func runOne(t *testing.T, sc *Scenario, tape *core.Tape, tier string) (res Resul
 	}()
 	synctest.Test(t, func(t *testing.T) {
 		sim := core.NewSim(tape)
-		if sc.World == "S" || sc.World == "Y" {
+		if sc.World == "S" || sc.World == "Y" || sc.World == "X" {
 			// which of the mechanically inserted park points (locks, atomics) are live in this run
 			switch tape.Draw("auto-yield", 4) {
 			case 2:
